@@ -303,6 +303,7 @@ async def realise(sc) -> Real:
 # --------------------------------------------------------------------------------------------
 
 PATH: contextvars.ContextVar = contextvars.ContextVar("wf_model_path", default=())
+IN_ITEM: contextvars.ContextVar = contextvars.ContextVar("wf_model_in_item", default=False)
 
 
 class TCluster(Cluster):
@@ -393,6 +394,7 @@ class Recorder:
         self.trace = []          # {"path": [[label, idx]...], "tgt": [kind, name], "inputs": value}
         self.outcomes = {}       # path tuple -> [[label, canon_out, canon_rids]...]
         self.results = {}        # path tuple -> canon_result of the (nested) reconcile_workflow
+        self.events = []         # top-level completion order: ["step", label] | ["item", label, idx]
         self.raised = []
 
     def install(self):
@@ -400,17 +402,31 @@ class Recorder:
         from koreo.workflow import structure
         rec = self
         self._R = R
-        self._orig = (R._reconcile_step_logic, R._reconcile_steps, R.reconcile_workflow)
-        o_logic, o_steps, o_wf = self._orig
+        self._orig = (R._reconcile_step_logic, R._reconcile_steps, R.reconcile_workflow, R._reconcile_step)
+        o_logic, o_steps, o_wf, o_step = self._orig
+
+        async def step_shim(**kw):
+            res = await o_step(**kw)
+            if PATH.get() == ():
+                rec.events.append(["step", kw["step"].label])
+            return res
 
         async def logic_shim(**kw):
             logic = kw["logic"]
-            if isinstance(logic, structure.LogicSwitch):
-                return await o_logic(**kw)
             loc = kw["location"]
             assert loc.startswith(WORKFLOW_KEY + ".spec.steps."), loc
             m = _STEP_LOC.search(loc)
             label, idx = m.group(1), (int(m.group(2)) if m.group(2) is not None else None)
+            if PATH.get() == () and idx is not None and not IN_ITEM.get():
+                # the outermost evaluation for a forEach item: its end is the item task's end
+                tok = IN_ITEM.set(True)
+                try:
+                    return await logic_shim(**kw)
+                finally:
+                    IN_ITEM.reset(tok)
+                    rec.events.append(["item", label, idx])
+            if isinstance(logic, structure.LogicSwitch):
+                return await o_logic(**kw)
             path = PATH.get() + ((label, idx),)
             tgt = rec.real.target_of(logic)
             if tgt is not None:
@@ -433,11 +449,12 @@ class Recorder:
             return res
 
         R._reconcile_step_logic, R._reconcile_steps, R.reconcile_workflow = logic_shim, steps_shim, wf_shim
+        R._reconcile_step = step_shim
         return wf_shim
 
     def uninstall(self):
         R = self._R
-        R._reconcile_step_logic, R._reconcile_steps, R.reconcile_workflow = self._orig
+        R._reconcile_step_logic, R._reconcile_steps, R.reconcile_workflow, R._reconcile_step = self._orig
 
 
 def prepared_info(real: Real, name=None):
@@ -487,6 +504,7 @@ def run(sc, lat=None, virtual=True):
                 "nested_outcomes": {json.dumps([list(p) for p in k]): v for k, v in rec.outcomes.items() if k != ()},
                 "nested_results": {json.dumps([list(p) for p in k]): v for k, v in rec.results.items() if k != ()},
                 "trace": rec.trace,
+                "events": rec.events,
                 "calls": calls,
                 "prepared": prepared_info(real),
                 "prepared_subs": {n: prepared_info(real, n) for n in real.subs},
@@ -876,6 +894,8 @@ class Gen:
     def target(self, allow_sub=True, allow_res=True):
         rng = self.rng
         subs = list(self.sc.get("subs", {}).keys()) if allow_sub else []
+        if allow_res and rng.random() < self.sc.get("res_bias", 0):
+            return ["fn", "res"]
         r = rng.random()
         if r < 0.3:
             return ["fn", "echo"]
@@ -976,7 +996,13 @@ class Gen:
                 put("name", C(f"obj-{label}"))
         for k in need_keys:
             if k != fe_key:
-                put(k, C(f"obj-{label}-{k}"))
+                if self.in_sub:
+                    # a sub-workflow may be evaluated several times: object names always come from its caller
+                    k2 = f"n{len(self.needs)}"
+                    self.needs.append(k2)
+                    put(k, ["P", [k2]])
+                else:
+                    put(k, C(f"obj-{label}-{k}"))
         sample = {"sel": rng.choice(CASES), "a": rng.choice([1, 2]), "flag": rng.random() < 0.3, "lst": [1, "x"]}
         for t in targets:
             if t[0] == "sub":
@@ -1086,9 +1112,9 @@ def all_object_names(sc):
     return sorted(names)
 
 
-def rand_scenario(rng, nsteps=None, broken=None):
+def rand_scenario(rng, nsteps=None, broken=None, res_bias=0):
     sc = {"name": "wf-main", "trigger": rand_trigger(rng), "existing": [], "subs": {}, "steps": [], "edit": None,
-          "err_rate": rng.choice([0.0, 0.0, 0.3, 1.0])}
+          "err_rate": rng.choice([0.0, 0.0, 0.3, 1.0]), "res_bias": res_bias}
     for i in range(rng.choice([0, 0, 1, 1, 2])):
         _gen_sub(rng, sc, f"sub-{i}", 1)
     g = Gen(rng, sc)
@@ -1116,3 +1142,21 @@ def rand_scenario(rng, nsteps=None, broken=None):
         sc["edit"] = ["deps", i, sorted(step_refs(sc["steps"][i]) | {later})]
         sc["broken"] = "edit"
     return sc
+
+
+def c_events(evs):
+    return clist(evs, lambda e: f"(EvStep {cstr(e[1])})" if e[0] == "step" else f"(EvItem {cstr(e[1])} {cnat(e[2])})")
+
+
+def c_sched_case(sc, o):
+    """Corr_C02.scase"""
+    return f"(mkSCase {c_case(sc, o)} {c_events(o['events'])})"
+
+
+def shares_objects(o) -> bool:
+    """the run violates the hypothesis 'steps act on pairwise distinct objects': an object was touched by two
+    different evaluations of Logic"""
+    by = {}
+    for c in o["calls"]:
+        by.setdefault(c["name"], set()).add(json.dumps(c["path"]))
+    return any(len(v) > 1 for v in by.values())
